@@ -489,3 +489,15 @@ Proof.
   destruct (validate_accepts_only _ _ _ E) as ((item & r & E1 & K) & (pre & E2)).
   exists item, r, pre, rest. repeat split; assumption.
 Qed.
+
+(* ... and (after D56) the definition has to be the WHOLE text: its last element is the closing '>' of the structure, nothing follows *)
+Corollary structure_only_of_whole_text src s : sfdl_structure src = Ok s ->
+  exists item r pre, elements_of src = [cp_lt] :: item :: r /\ (item = T_L \/ attr_exists item = true) /\
+                     elements_of src = (pre ++ [[cp_gt]])%list.
+Proof.
+  unfold sfdl_structure, tokens_of. intro H.
+  destruct (validate (S (length (elements_of src))) (elements_of src)) as [rest|] eqn:E; [|discriminate].
+  destruct (validate_accepts_only _ _ _ E) as ((item & r & E1 & K) & (pre & E2)).
+  destruct rest as [|x rest]; [|discriminate H].
+  exists item, r, pre. repeat split; assumption.
+Qed.
